@@ -290,7 +290,7 @@ def b_history(case, ctx):
                     if kind == "rows":
                         v = v[1:]
                     elif kind == "col":
-                        v = v[:, 2] if v.ndim == 2 else v
+                        v = v[:, 2] if v.ndim == 2 and v.shape[1] > 2 else v
                     elif kind == "flat":
                         v = v.reshape(-1)
                     elif kind == "step":
